@@ -302,9 +302,29 @@ def base_argv(sc, paths, out, extra=None):
         fl = sc.get("gtf") or {}
         if fl.get("gene_records", True) and fl.get("transcript_records", True) and not sc.get("no_complete"):
             argv += ["--complete_genedb"]
-    argv += ["--bam"] + paths["bams"]
-    if sc.get("labels"):
-        argv += ["--labels"] + list(sc["labels"])
+    if sc.get("yaml_input"):
+        # the same files described in a YAML file that lies next to them; the paths are written relative to the YAML
+        # file ("x.bam", "./x.bam", "../<dir>/x.bam"), which the documentation allows
+        import json
+        ydir = os.path.dirname(paths["bams"][0])
+        style = sc["yaml_input"]
+        files = []
+        for i, b in enumerate(paths["bams"]):
+            rel = os.path.relpath(b, ydir)
+            st_ = style if style != "mixed" else ["plain", "dot", "updown"][i % 3]
+            files.append({"plain": rel, "dot": "./" + rel,
+                          "updown": os.path.join("..", os.path.basename(ydir), rel), "absolute": b}[st_])
+        ent = {"name": sc.get("prefix", "OUT"), "long read files": files}
+        if sc.get("labels"):
+            ent["labels"] = list(sc["labels"])
+        yp = os.path.join(ydir, "experiment.yaml")
+        with open(yp, "w") as f:
+            json.dump([{"data format": "bam"}, ent], f)
+        argv += ["--yaml", yp]
+    else:
+        argv += ["--bam"] + paths["bams"]
+        if sc.get("labels"):
+            argv += ["--labels"] + list(sc["labels"])
     argv += list(sc.get("opts") or [])
     if extra:
         argv += list(extra)
